@@ -410,5 +410,5 @@ func report() {
 }
 
 func TestReplay(t *testing.T) {
-	core.Replay(t, valueCheck, focusCheck, abiCheck, dnsCheck, concurrentCheck, rawCellCheck)
+	core.Replay(t, valueCheck, focusCheck, abiCheck, dnsCheck, concurrentCheck, rawCellCheck, sharedSlots)
 }
